@@ -12,6 +12,7 @@ import (
 	"reflect"
 	"sort"
 	"sync"
+	"time"
 	"unsafe"
 )
 
@@ -413,4 +414,22 @@ func Point() {
 	if h := PointHook; h != nil {
 		h()
 	}
+}
+
+// ---- clock seam -----------------------------------------------------------------------------
+//
+// In the instrumented copy time.Now() of the library is verifrt.Now(): while a simulation runs, the library
+// reads the simulator's clock (a function of the run's seed and of how often the clock was read), so the
+// timestamps it writes - and with them the exact bytes and lengths of the packages - replay exactly, and the
+// simulator can make the clock jump or stand still.
+
+// NowHook, when set, replaces the wall clock.
+var NowHook func() time.Time
+
+// Now is time.Now() behind the seam.
+func Now() time.Time {
+	if h := NowHook; h != nil {
+		return h()
+	}
+	return time.Now()
 }
